@@ -58,6 +58,62 @@ fn renderings(s: &[char]) -> Vec<(&'static str, T)> {
     vec![("comma-list", lit), ("iterate-input", iter), ("foreach-source", fe), ("filter-argument", def)]
 }
 
+/// the same items as path expressions (the input is the array of descriptors, so `.[i-1]` is a true
+/// value and `.[9]` is null)
+fn pitem(c: char, i: i64) -> String {
+    match c {
+        'v' => format!("(tick({i}) | .[{}])", i - 1),
+        'f' => format!("(tick({i}) | .[9])"),
+        'e' => format!("(tick({i}) | error(\"e\"))"),
+        'h' => format!("(tick({i}) | halt(3))"),
+        'i' => format!("(tick({i}) | (input | empty))"),
+        'b' => format!("(tick({i}) | bomb)"),
+        _ => format!("(tick({i}) | empty)"),
+    }
+}
+
+/// Further places a stream can sit in: every one of them has to hand the items on one at a time.
+/// (`L` = the stream as a comma list, `P` = the stream as a comma list of path expressions.)
+const EMBEDDINGS: &[(&str, &str)] = &[
+    ("foreach-update", "foreach 0 as $x (0; L)"),
+    ("foreach-projection", "foreach 0 as $x (0; 0; L)"),
+    ("foreach-update-twice", "foreach (0, 1) as $x (0; L)"),
+    ("foreach-update-then-projection", "foreach 0 as $x (0; L; [., $x])"),
+    ("reduce-update", "reduce 0 as $x (0; L)"),
+    ("try-rethrow", "try (L) catch error"),
+    ("optional", "(L)?"),
+    ("label-body", "label $z | L"),
+    ("as-body", "0 as $v | L"),
+    ("if-branch", "if . then L else 0 end"),
+    ("def-with-variable-argument", "def s($v): L; s(0)"),
+    ("nested-def", "def s: def t: L; t; s"),
+    ("piped-through-def", "(L) | (def i: .; i)"),
+    ("limit-9", "limit(9; L)"),
+    ("skip-0", "skip(0; L)"),
+    ("recurse-step-once", "{a: 0} | recurse(if .a == 0 then {a: (L)} else empty end) | .a"),
+    ("path", "path(P)"),
+    ("path-alt-left", "path((P) // .[8])"),
+    ("path-alt-right", "path(.[9] // (P))"),
+    ("path-piped", "path((P) | .k)"),
+    ("path-first", "path(first(P))"),
+    ("path-foreach-update", "path(foreach 0 as $x (.; P))"),
+    ("path-if-branch", "path(if . then P else . end)"),
+    ("path_value", "path_value(P)"),
+    ("getpath-of-path", "getpath(path(P))"),
+];
+
+fn embeddings(s: &[char]) -> Vec<(&'static str, T)> {
+    let l = if s.is_empty() { "empty".to_string() } else { rt::show(&s.iter().enumerate().map(|(i, c)| item(*c, i as i64 + 1)).reduce(comma).unwrap()) };
+    let p = if s.is_empty() { "empty".to_string() } else { s.iter().enumerate().map(|(i, c)| pitem(*c, i as i64 + 1)).collect::<Vec<_>>().join(", ") };
+    EMBEDDINGS
+        .iter()
+        .map(|(n, tpl)| {
+            let code = tpl.replace('L', &l).replace('P', &p);
+            (*n, rt::parse_with_jaq(&code).unwrap_or_else(|| panic!("embedding {n}: {code}")))
+        })
+        .collect()
+}
+
 fn descriptors(s: &[char]) -> RVal {
     RVal::Arr(s.iter().enumerate().map(|(i, c)| RVal::Obj(vec![(rv::s("i"), rv::int(i as i64 + 1)), (rv::s("k"), rv::s(&c.to_string()))])).collect())
 }
@@ -170,6 +226,35 @@ pub fn main(tier: Tier) -> ! {
         run.bound_done(format!("all streams of length <= {maxlen} over 7 item kinds x 4 renderings x {} consumers x every drop point", cons.len()));
     }
     run.family("stream x consumer", st.json());
+    run.add(st.c);
+
+    // the same streams in every other position that has to relay items lazily
+    let elen = if run.quick() { 2 } else { 3 };
+    let es = streams(elen);
+    let st = es
+        .par_iter()
+        .fold(Stats::default, |mut st, s| {
+            if run.elapsed() > run.deadline_s * 1.5 {
+                return st;
+            }
+            let inp = [descriptors(s)];
+            for (rname, e) in embeddings(s) {
+                for (_cname, c) in &cons {
+                    let prog = c(e.clone());
+                    for k in 1..=(s.len().min(3) + 1) {
+                        check_program(&run, &mut st, rname, &prog, &inp, &input_stream, k);
+                    }
+                }
+            }
+            st
+        })
+        .reduce(Stats::default, Stats::merge);
+    if run.elapsed() > run.deadline_s * 1.5 {
+        run.bound_capped("embedded streams: wall budget reached");
+    } else {
+        run.bound_done(format!("all streams of length <= {elen} x {} embeddings (fold update/projection, try, label, binders, definitions, path mode incl. both sides of //) x {} consumers x every drop point", EMBEDDINGS.len(), cons.len()));
+    }
+    run.family("embedded stream x consumer", st.json());
     run.add(st.c);
 
     // generators x consumers with explicit bounds
